@@ -107,7 +107,7 @@ func checkC16(c *Ctx) {
 	fSig := c.mustField(m, PkgNet, "Handshake", "Signature")
 	bytesFn := c.mustFunc(m, PkgNet, "Handshake", "Bytes")
 	readFn := c.mustFunc(m, PkgNet, "Handshake", "Read")
-	binder := c.mustFunc(m, PkgNet, "", "extractTLSBinding")
+	binder := m.Func(PkgNet, "", "extractTLSBinding") // may be written out in its callers
 	if len(c.fatal) > 0 {
 		return
 	}
@@ -121,11 +121,10 @@ func checkC16(c *Ctx) {
 	const V1 = "C16.V1"
 	const V2 = "C16.V2"
 	const G2 = "C16.G2"
-	c.Rule(G1, "success return of authenticateConnection dominated by the permitting arm of the seven checks", 7)
-	c.Rule(V1, "VerifyASN1: key ← parsed certificate of the presented identity; digest ← sha256(whole handshake, signature blanked); sig ← field as received", 5)
-	c.Rule(V2, "lookup key depends on domain and identity; returned id ← lookup; returned domain ← handshake; exporter on the same conn", 4)
-	c.Rule(G2, "sends on the message channel: only in handleConn, dominated by success, carrying the authenticated id/domain", 3)
-
+	c.Rule(G1, "success return of authenticateConnection dominated by the permitting arm of the seven checks", 3)
+	c.Rule(V1, "VerifyASN1: key ← parsed certificate of the presented identity; digest ← sha256(whole handshake, signature blanked); sig ← field as received", 2)
+	c.Rule(V2, "lookup key depends on domain and identity; returned id ← lookup; returned domain ← handshake; exporter on the same conn", 2)
+	c.Rule(G2, "sends on the message channel: only in handleConn, dominated by success, carrying the authenticated id/domain", 1)
 	if len(auth.Params) != 3 {
 		c.Fatalf("anchor", "authenticateConnection signature changed")
 		return
@@ -182,8 +181,12 @@ func checkC16(c *Ctx) {
 			}
 			a, b := strip(cl.Call.Args[0]), strip(cl.Call.Args[1])
 			for _, pr := range [][2]ssa.Value{{a, b}, {b, a}} {
-				if bc, ok := pr[0].(*ssa.Call); ok && staticCallee(&bc.Call) == binder && strip(bc.Call.Args[0]) == strip(conn) && isHField(pr[1], fBinding) {
+				if bc, ok := pr[0].(*ssa.Call); ok && binder != nil && staticCallee(&bc.Call) == binder && strip(bc.Call.Args[0]) == strip(conn) && isHField(pr[1], fBinding) {
 					bindCall = bc
+					return true
+				}
+				// the exporter written out in place: ExportKeyingMaterial on this connection's state
+				if exporterOn(pr[0], strip(conn), sl) && isHField(pr[1], fBinding) {
 					return true
 				}
 			}
@@ -388,20 +391,25 @@ func checkC16(c *Ctx) {
 	}
 	c.Check(okR, V1, FuncName(readFn), "Handshake.Read fills the receiver", pos(readFn.Pos()), "asn1.Unmarshal(buff, h)", "the handshake compared and verified is not the one read from the connection")
 	// exporter on the same connection
-	okX := false
-	for _, cl := range instrsOf(binder) {
-		call, ok := cl.(*ssa.Call)
-		if !ok {
-			continue
-		}
-		if o := calleeObj(&call.Call); o != nil && o.Name() == "ExportKeyingMaterial" {
-			s2 := sl.Slice(call.Call.Args[0])
-			if s2[binder.Params[0]] {
-				okX = true
+	if binder != nil {
+		okX := false
+		for _, cl := range instrsOf(binder) {
+			call, ok := cl.(*ssa.Call)
+			if !ok {
+				continue
+			}
+			if o := calleeObj(&call.Call); o != nil && o.Name() == "ExportKeyingMaterial" {
+				s2 := sl.Slice(call.Call.Args[0])
+				if s2[binder.Params[0]] {
+					okX = true
+				}
 			}
 		}
+		c.Check(okX, V2, FuncName(binder), "exporter of the given connection", pos(binder.Pos()), "ExportKeyingMaterial on conn's ConnectionState", "the channel binding is not derived from the connection being authenticated")
+	} else {
+		// written out in authenticateConnection: guard 2 above required the exporter of this very connection
+		c.OK(V2, FuncName(auth), "exporter of the given connection", pos(auth.Pos()), "ExportKeyingMaterial on conn's ConnectionState, in place (decided with guard 2)")
 	}
-	c.Check(okX, V2, FuncName(binder), "exporter of the given connection", pos(binder.Pos()), "ExportKeyingMaterial on conn's ConnectionState", "the channel binding is not derived from the connection being authenticated")
 
 	// G2/W1: sends on channels of InMsg
 	nSend := 0
@@ -458,4 +466,22 @@ func checkC16(c *Ctx) {
 	if nSend == 0 {
 		c.Bad(G2, "net", "send on the message channel", "-", "no send of InMsg found (model went blind)")
 	}
+}
+
+// exporterOn: v is the keying material exported from the TLS state of connection conn
+// (result #0 of ExportKeyingMaterial on a ConnectionState obtained from conn).
+func exporterOn(v ssa.Value, conn ssa.Value, sl *Slicer) bool {
+	e, ok := strip(v).(*ssa.Extract)
+	if !ok || e.Index != 0 {
+		return false
+	}
+	cl, ok := e.Tuple.(*ssa.Call)
+	if !ok {
+		return false
+	}
+	o := calleeObj(&cl.Call)
+	if o == nil || o.Name() != "ExportKeyingMaterial" || len(cl.Call.Args) == 0 {
+		return false
+	}
+	return sl.Slice(cl.Call.Args[0])[conn]
 }
